@@ -77,6 +77,21 @@ class C18(InvProp):
                 cw = case(sorted(paths), r.chance(2, 3), r.chance(1, 3))
                 cw["cwd_relative"] = True
                 yield cw
+            if i % 4 == 1:
+                # the inventory directory (constructor) or the nodes/classes directories (config file) are written with a
+                # spelling that denotes the same place: doubled or trailing separators, `.` segments, a detour through `..`
+                cs = case(sorted(paths), r.chance(2, 3), r.chance(1, 3))
+                if r.chance(1, 2):
+                    cs["config"]["root_spelling"] = r.choice(["double_slash", "dot", "trailing", "detour", "triple"])
+                else:
+                    opts = [["nodes_uri", r.choice(["./nodes", "nodes/.", ".//nodes", "classes/../nodes", "./././nodes", "nodes//"])],
+                            ["classes_uri", r.choice(["./classes", "classes", "nodes/../classes", "classes/"])],
+                            ["compose_node_name", bool(cs["config"].get("compose_node_name", False))]]
+                    if cs["config"].get("literal_dots"):
+                        opts.append(["reclass_rs_compat_flags", ["compose-node-name-literal-dots"]])
+                    cs["config"]["file_options"] = r.shuffle(opts)
+                cs["fam"] = "spelled_paths"
+                yield cs
             if i % 3 == 0:
                 # the same instance renders, has its compatibility flags changed through the public methods, and renders
                 # again: metadata must follow the settings in force (compared with a fresh instance)
